@@ -344,15 +344,7 @@ func vc13Mutate(r *vlib.Rand, s string) (string, string) {
 
 func TestVerifC13RemoteIP(t *testing.T) {
 	res := vlib.NewResult("C13", "inpkg-proxylib-c13", "remoteIPFromSDP on PRNG descriptions (0-3 media sections, candidates of all types and c= lines with public/local/IPv4-mapped/odd addresses, CRLF and LF), line-level mutations, enumerated line types x odd fields x positions, c= lines with hostile address tokens, all truncation points, arbitrary strings; non-trivial = input the SDP parser accepts that has at least one candidate or c= line, distinct by input hash")
-	defer func() {
-		// a panic outside a guarded call (unguarded code under test, or a harness
-		// bug) must never end as a complete, clean result
-		if e := recover(); e != nil {
-			st := vlib.ShortStack()
-			res.Violate("panic:outside-guard:"+vc13PanicSite(st), fmt.Sprintf("panic outside a guarded call: %v\n%s", e, st), map[string]interface{}{"case": "harness"})
-		}
-		res.Finish()
-	}()
+	defer res.Finish() // vlib records a panic outside any guard as violation "panic:outside-guard"
 	oldOut := log.Writer()
 	log.SetOutput(ioutil.Discard)
 	defer log.SetOutput(oldOut)
